@@ -102,6 +102,7 @@ def gen_name(rnd, ctx):
 
 def gen_case(rnd, ctx, maxmut):
     npool = 18
+    items = gen_name(rnd, ctx)
     sh = c08.Shadow(npool)
     used = [0]
     attached = {0}
@@ -130,19 +131,27 @@ def gen_case(rnd, ctx, maxmut):
         attached.clear()
         attached.update(subtree(0))
 
+    named = sorted(set(f for names, _ in items[:-1] for f in names) | ({items[-1][0][0]} - {0}))
+
+    def pick(fields):
+        pref = [f for f in fields if f in named]
+        return rnd.choice(pref) if pref and rnd.random() < 0.75 else rnd.choice(fields)
+
     def mutation():
         pool = sorted(attached) if rnd.random() < 0.9 else list(used)
         o = rnd.choice(pool)
         r = rnd.random()
-        if r < 0.3:
-            f = rnd.choice([1, 2])
+        want_ref = any(f in (1, 2) for f in named)
+        want_cont = any(f in (3, 4, 5) for f in named)
+        if r < (0.35 if want_ref else 0.12):
+            f = pick([1, 2])
             v = fresh() if rnd.random() < 0.75 else None
             if v is None and sh.ref[(o, f)] is None and rnd.random() < 0.7:
                 return None
             sh.ref[(o, f)] = v
             return ["SetRef", o, f, v]
-        if r < 0.45:
-            f = rnd.choice([3, 3, 4, 5])
+        if r < (0.35 if want_ref else 0.12) + (0.2 if want_cont else 0.06):
+            f = pick([3, 4, 5])
             k = rnd.randint(1, 2)
             vs = [fresh() for _ in range(k)]
             if None in vs:
@@ -153,7 +162,8 @@ def gen_case(rnd, ctx, maxmut):
         conts = [c for c in sh.items if sh.owner[c] is not None and sh.owner[c] in pool]
         if not conts:
             return None
-        c = rnd.choice(conts)
+        pref = [c for c in conts if sh.kind[c] - 3 in named]
+        c = rnd.choice(pref) if pref and rnd.random() < 0.75 else rnd.choice(conts)
         kind, cur = sh.kind[c], sh.items[c]
         n = len(cur)
         if kind == 6:
@@ -244,9 +254,34 @@ def gen_case(rnd, ctx, maxmut):
             ops.append(["Probe", o])
         ctx.count("op:Probe", len(used))
 
-    items = gen_name(rnd, ctx)
+    # a path along the name (most of the time), so that the walk reaches the final attribute
+    if rnd.random() < 0.75:
+        frontier = [0]
+        for names, _ in items[:-1]:
+            nxt = []
+            for o in frontier[:2]:
+                for f in names:
+                    if rnd.random() < 0.15:
+                        continue
+                    if f in (1, 2):
+                        v = fresh()
+                        if v is None:
+                            continue
+                        sh.ref[(o, f)] = v
+                        add(["SetRef", o, f, v])
+                        nxt.append(v)
+                    else:
+                        vs = [fresh() for _ in range(rnd.randint(1, 2))]
+                        if None in vs:
+                            continue
+                        its = [[key, v] for key, v in zip(["a", "b"], vs)] if f == 4 else vs
+                        sh.new_cont(o, f, [list(a) for a in its] if f == 4 else its)
+                        add(["SetCont", o, f, its, False])
+                        nxt += vs
+            frontier = nxt
+        refresh()
     # grow a tree that the name can walk into: prefer the fields the name mentions
-    for _ in range(rnd.randint(2, 7)):
+    for _ in range(rnd.randint(0, 5)):
         m = mutation()
         if m:
             add(m)
